@@ -32,6 +32,10 @@ CLAIMED = {
    text="Seeded search over a real Authenticator (through real DatabaseContexts on 1-2 nodes sharing the bucket) on the simulated datastore: tasks create / disable / enable / delete / recreate users, change passwords (arbitrary strings incl. empty, long, non-UTF-8), create and delete sessions (TTL, one-time) and authenticate by password, cookie and one-time session, with several tasks presenting the same one-time session concurrently (interleaved at the session get / user load / delete), credential changes placed right after a session was issued, the fake clock moved past TTLs and around the refresh threshold, and storage errors / CAS mismatches injected on session and user operations. Oracle over the recorded invoke/return history (register semantics): every successful authentication must be justified by credentials that were possible at some instant of the attempt (user exists, enabled, that password current; session exists, not deleted, not expired, issued after the last completed password change or user deletion), it must return that user, and a one-time session succeeds at most once ever.",
    note="Checked at Authenticator level (AuthenticateUser / AuthenticateCookie / AuthenticateOneTimeSession); the storage seam restores Couchbase Server's 'not found' answer for deleting an already deleted document, which rosmar does not give. The converse (valid credentials always authenticate) is not demanded.",
    technique="deterministic simulation; history-based oracle with possible-state (register) semantics over event-stamped intervals", design="4/C12"),
+ "C09": dict(level="exploration",
+   text="Seeded search over 1-2 real nodes (automatic import on, off, or one of each) plus an 'other application' that sets and deletes raw documents through its own storage handle, gateway writers and readers on the same documents, and single-document resync (with and without sequence regeneration), all interleaved at storage-operation granularity (feed import vs on-demand import on read and on write vs a gateway write retrying on CAS), with feed redelivery / de-duplication and forced CAS mismatches. Oracle: in bucket order (observed at the storage seams of the gateway nodes and of the external writer) a gateway write never replaces an external body that was not imported first; at quiescence the gateway serves the body of the latest mutation, the latest external write has become a new revision (not the revision that was current before it), history stays a single chain, #revisions = #acknowledged gateway writes + #imports with #imports <= #external writes and 0 when nobody wrote externally (import counter 0 too); re-delivering feed events and re-reading every document changes no revision, sequence, CAS or the sequence counter.",
+   note="Revision counting is skipped for documents that were deleted externally (re-creating a tombstoned document externally starts a new document). The storage seam restores two Couchbase Server answers that rosmar does not give (delete of a tombstone = not found; insert over a live document = key exists).",
+   technique="deterministic simulation with an external-writer actor; bucket-order log oracle + idempotence (redelivery) check", design="4/C09"),
 }
 
 NA = {
